@@ -910,6 +910,18 @@ pub mod __verif_waker {
         }
     }
 
+    /// the producer side of the flush channel, usable while the tracker is borrowed (a flush
+    /// request arriving in the middle of `handle_waiting_wakers`, e.g. during the stream flush)
+    pub struct Requester(std::sync::mpsc::Sender<FlushSignal>);
+
+    impl Requester {
+        pub fn request_flush(&self) -> Request {
+            let (channel, receiver) = tokio::sync::oneshot::channel();
+            self.0.send(FlushSignal { channel }).ok();
+            Request(receiver)
+        }
+    }
+
     impl Default for Handle {
         fn default() -> Self {
             Self::new()
@@ -952,6 +964,10 @@ pub mod __verif_waker {
 
         pub fn will_progress_on_drained_queue(&mut self) -> bool {
             self.tracker.will_progress_on_drained_queue()
+        }
+
+        pub fn requester(&self) -> Requester {
+            Requester(self.sender.clone())
         }
 
         pub fn waiting(&self) -> usize {
